@@ -18,3 +18,20 @@ package storage
 
 // govc:trusted (*Store).KnowsBundle
 //@ assigns nothing
+
+// ---- completeness test and loading of a (possibly fragmented) record (C10) ----
+
+// Reading the stored parts back from disk (files, CBOR parsing: outside reach): some slice of well-formed bundles.
+// govc:trusted (BundleItem).bundleParts
+//@ assigns nothing
+//@ ensures err == nil ==> ref(bundleParts) == ref(uf("partsOf", "[]bpv7.Bundle", bi.Id)) && len(bundleParts) == len(uf("partsOf", "[]bpv7.Bundle", bi.Id)) && forall k int :: 0 <= k && k < len(bundleParts) ==> blocksNonNil(bundleParts[k])
+
+// Loading a record returns what reassembly makes of ALL its stored parts, and fails when reassembly fails: a record
+// with a single stored fragment, or with gaps, is never loaded as if it were the bundle. The completeness test is the
+// reassembly test on the same parts (a record that was never fragmented is complete).
+// govc:func (BundleItem).Load property C10
+//@ ensures err == nil ==> uf("reassemblyOK", bool, ref(uf("partsOf", "[]bpv7.Bundle", bi.Id)))
+//@ atcall ReassembleFragments: sameSlice(arg0, parts)
+
+// govc:func (BundleItem).IsComplete property C10
+//@ ensures !bi.Fragmented ==> result
